@@ -105,7 +105,7 @@ class Classifier:
                 conn.tags.update(init='peerinit', typ=typ, user=user)
             elif code == 0:
                 ticket = int.from_bytes(raw[5:9], 'little')
-                typ = self._pierce_type(ticket)
+                typ = self._pierce_type(ticket, conn)
                 conn.tags.update(init='pierce', typ=typ, ticket=ticket)
             else:
                 conn.tags.update(init='other', typ='?')
@@ -123,11 +123,15 @@ class Classifier:
             if self.on_file_conn is not None:
                 self.on_file_conn(fc)
 
-    def _pierce_type(self, ticket: int) -> str:
+    def _pierce_type(self, ticket: int, conn: Optional[SimConn] = None) -> str:
+        """A pierce-firewall connection dialed by X to Y answers Y's
+        ConnectToPeer.Request(ticket, username=X); tickets are per-client
+        counters, so the pair (requester, target) is part of the key."""
         from aioslsk.protocol.messages import ConnectToPeer
-        for _, _, m in reversed(self.world.server.frames):
+        for _, user, m in reversed(self.world.server.frames):
             if isinstance(m, ConnectToPeer.Request) and m.ticket == ticket:
-                return m.typ
+                if conn is None or (user == conn.dst and m.username == conn.src):
+                    return m.typ
         return self.pierce_types.get(ticket, '?')
 
     def _account(self, fc: FileConn, tr: SimTransport, data: bytes):
